@@ -355,6 +355,73 @@ VIOLATED = bool(bad); DETAIL = "varint-prefixed values that do not round-trip (v
 '''
 
 
+def header_layouts():
+    """'the request header ... and the reply is decoded with that same version's ... header form': request header v1 (api key,
+    api version, correlation id as INT16 INT16 INT32, client id as an INT16-length string) and v2 (the same - the client id
+    stays an INT16-length string in the flexible header - followed by a tagged-field section), response header v0 / v1, each
+    against bytes written from the protocol's definition by hand"""
+    import io
+    import struct
+    from aiokafka.protocol import api as A
+    cases, fails = 0, []
+
+    class Req:
+        def __init__(self, key, ver):
+            self.API_KEY, self.API_VERSION = key, ver
+
+    def st(x):
+        b = x.encode("utf-8")
+        return struct.pack(">h", len(b)) + b
+
+    for key, ver, cid, client in ((21, 2, 7, "aiokafka"), (45, 0, 2 ** 31 - 1, ""), (46, 0, 0, "c\u00e9l\u00e8bre-\u4e2d"), (3, 1, 5, "x" * 200)):
+        for tags in ({}, {0: b"ab"}, {3: b"", 130: b"z" * 130}):
+            ref1 = struct.pack(">hhi", key, ver, cid) + st(client)
+            ref2 = ref1 + _leb128(len(tags)) + b"".join(_leb128(t) + _leb128(len(tags[t])) + tags[t] for t in sorted(tags))
+            for name, make, ref in (("RequestHeader_v1", lambda: A.RequestHeader_v1(Req(key, ver), cid, client), ref1),
+                                    ("RequestHeader_v2", lambda: A.RequestHeader_v2(Req(key, ver), cid, client, tags), ref2)):
+                if name == "RequestHeader_v1" and tags:
+                    continue
+                cases += 1
+                try:
+                    enc = make().encode()
+                except Exception as e:
+                    enc = ("raised %s" % type(e).__name__).encode()
+                if enc != ref:
+                    fails.append({"header": name, "client_id": client[:20], "tags": {k: len(v) for k, v in tags.items()},
+                                  "encoded": enc[:24].hex(), "protocol_layout": ref[:24].hex()})
+            for name, cls, ref in (("ResponseHeader_v0", A.ResponseHeader_v0, struct.pack(">i", cid)),
+                                   ("ResponseHeader_v1", A.ResponseHeader_v1, struct.pack(">i", cid) + ref2[len(ref1):])):
+                if name == "ResponseHeader_v0" and tags:
+                    continue
+                cases += 1
+                try:
+                    buf = io.BytesIO(ref + b"\xAA")
+                    h = cls.decode(buf)
+                    ok = h.correlation_id == cid and buf.read() == b"\xAA" and (name == "ResponseHeader_v0" or dict(h.tags) == tags)
+                except Exception as e:
+                    ok, h = False, "raised %s" % type(e).__name__
+                if not ok:
+                    fails.append({"header": name, "bytes": ref[:24].hex(), "decoded": repr(h)[:80]})
+    return cases, fails
+
+
+def enum_header_layouts():
+    cases, fails = header_layouts()
+    emit({"name": "header-layouts", "exhaustive": True, "cases": cases, "distinct_nontrivial": cases,
+          "bound": "request headers v1 / v2 and response headers v0 / v1 for 4 (api key, version, correlation id, client id) "
+                   "combinations x 3 tagged-field sets, against bytes written by hand from the protocol definition",
+          "failures": fails[:10], "failures_total": len(fails), "replay": {"script": HEADER_SCRIPT}})
+
+
+HEADER_SCRIPT = '''
+import sys
+sys.path.insert(0, "/verif")
+from bounded import C11
+n, fails = C11.header_layouts()
+VIOLATED = bool(fails); DETAIL = "%d of %d header encodings / decodings differ from the protocol layout; first: %r" % (len(fails), n, fails[:2])
+'''
+
+
 def short_reads():
     """-> (cases, failures): every fixed-width and length-prefixed type, handed fewer bytes than its encoding has, raises
     instead of returning a value made of what happened to be there ("decoding the encoding returns the original value" has
@@ -408,6 +475,7 @@ def main():
     roundtrip(structs, resps, a.tier, a.seed)
     primitive_boundaries(a.tier)
     enum_short_reads()
+    enum_header_layouts()
 
 
 if __name__ == "__main__":
